@@ -52,7 +52,7 @@ func (g *Gen) ClosureProgram() *Chunk {
 
 	nscen := 2 + g.R.Intn(5)
 	for s := 0; s < nscen; s++ {
-		kind := g.R.Intn(15)
+		kind := g.R.Intn(18)
 		g.cover("exit:%d", kind)
 		v := g.fresh("x")
 		getter := func(name string) Expr { return Fn(nil, false, Blk(Return(N(name)))) }
@@ -138,6 +138,46 @@ func (g *Gen) ClosureProgram() *Chunk {
 				Local1(v, Bin("*", N(c), Num(7))),
 				push(bump(v)), push(getter(v)),
 			), Cond: Bin(">=", N(v), Num(14))})
+		case 15: // a break that is compiled before the closure which captures the local, and executed after it (through a backward goto)
+			first, again := g.fresh("first"), g.fresh("Lagain")
+			b.Stmts = append(b.Stmts, &SWhile{Cond: &ETrue{}, Body: Blk(
+				&SLocal{Names: []string{v, first}, Exprs: []Expr{Num(float64(1 + g.R.Intn(9))), &ETrue{}}},
+				&SLabel{Name: again},
+				&SIf{Conds: []Expr{Un("not", N(first))}, Blocks: []*Block{Blk(&SBreak{})}},
+				push(getter(v)), push(bump(v)),
+				Assign1(N(first), &EFalse{}),
+				&SGoto{Label: again},
+			)})
+			g.cover("exit:break-compiled-before-capture")
+		case 16: // a backward goto to a label above the captured local, compiled before the closure appears
+			top, mid, n := g.fresh("Ltop"), g.fresh("Lmid"), g.fresh("n")
+			b.Stmts = append(b.Stmts, Local1(n, Num(0)), &SDo{Body: Blk(
+				&SLabel{Name: top},
+				Local1(v, Bin("*", N(n), Num(10))),
+				&SLabel{Name: mid},
+				Assign1(N(n), Bin("+", N(n), Num(1))),
+				&SIf{Conds: []Expr{Bin("==", N(n), Num(2))}, Blocks: []*Block{Blk(&SGoto{Label: top})}},
+				push(getter(v)), push(bump(v)),
+				&SIf{Conds: []Expr{Bin("==", N(n), Num(1))}, Blocks: []*Block{Blk(&SGoto{Label: mid})}},
+			)})
+			g.cover("exit:backward-goto-compiled-before-capture")
+		case 17: // the closure is made in a part of the block reached by a forward goto and left by a backward one
+			top, back, mk, done, i := g.fresh("Ltop"), g.fresh("Lback"), g.fresh("Lmake"), g.fresh("Ldone"), g.fresh("i")
+			b.Stmts = append(b.Stmts, &SDo{Body: Blk(
+				Local1(i, Num(0)),
+				&SLabel{Name: top},
+				Local1(v, Bin("+", N(i), Num(100))),
+				&SGoto{Label: mk},
+				&SLabel{Name: back},
+				&SIf{Conds: []Expr{Bin("<", N(i), Num(3))}, Blocks: []*Block{Blk(&SGoto{Label: top})}},
+				&SGoto{Label: done},
+				&SLabel{Name: mk},
+				push(getter(v)),
+				Assign1(N(i), Bin("+", N(i), Num(1))),
+				&SGoto{Label: back},
+				&SLabel{Name: done},
+			)})
+			g.cover("exit:capture-behind-forward-goto")
 		case 3: // goto out of nested blocks holding captured locals
 			lbl := g.fresh("Lout")
 			iv := g.fresh("i")
